@@ -59,7 +59,7 @@ def check_case(ctx, cs):
     tg = [kind, op, "n=%d" % len(shapes)] + (["rational"] if any(s["rat"] for s in shapes) else ["nonrational"]) + \
          ["sizes=" + "x".join(map(str, shapes[0]["size"]))]
     small = {"kind": kind, "op": op, "deg": [s["deg"] for s in shapes], "size": [s["size"] for s in shapes], "rat": [s["rat"] for s in shapes]}
-    ctx.count((op, kind, tuple(shape_key(s) for s in shapes)), sample=small)
+    ctx.count((op, kind, core.json.dumps(shapes, sort_keys=True)), sample=small)
     d = tempfile.mkdtemp(prefix="verif_c14_")
     try:
         objs = [build(s) for s in shapes]
